@@ -6,16 +6,36 @@
 
 package plugin
 
+//@ define START_EFFECTS heap, launches, kills, rf_calls, launched, cancelled, wg_count, hdata, open_files, sc_checks, sel_reached, conns_open
+//@ define CLIENT_EFFECTS $START_EFFECTS, yopens
 //@ ghost launched: map[Int]Int
 //@ ghost sc_checks: Int
 
 //@ pred dialable(a) := a != nil && (typeis(a, "*net.TCPAddr") ==> unbox(a, "*net.TCPAddr") != nil) && (typeis(a, "*net.UnixAddr") ==> unbox(a, "*net.UnixAddr") != nil)
-//@ pred valid_client(c) := c.config != nil && c.logger != nil && c.config.Stderr != nil && c.config.SyncStdout != nil && c.config.SyncStderr != nil && c.config.PluginLogBufferSize >= 1 && c.config.AllowedProtocols != nil
+//@ pred valid_client(c) := c.config != nil && c.logger != nil && c.config.Stderr != nil && c.config.SyncStdout != nil && c.config.SyncStderr != nil && c.config.AllowedProtocols != nil
 //@ pred valid_reattach(c) := c.config.Reattach != nil ==> dialable(c.config.Reattach.Addr)
-//@ pred inv_client(c) := (c.address != nil ==> dialable(c.address)) && launched[c] >= 0 && launched[c] <= 1 && (launched[c] == 1 && c.config.Cmd != nil ==> c.config.Cmd.Stdout != nil)
+//@ pred inv_client(c) := (c.address != nil ==> dialable(c.address)) && launched[c] >= 0 && launched[c] <= 1 && (launched[c] == 1 && c.config.Cmd != nil ==> c.config.Cmd.Stdout != nil) && (c.client != nil ==> c.address != nil && (c.protocol == "netrpc" || c.protocol == "grpc"))
+
+//@ type Client
+//@   guarded_by l: exited, runner, client, processKilled, address, ghost:launched   [C20.guard] [C19.once]
+//@   inv inv_client(this)   [C19.once]
+//@   rely l: old(this.address) != nil ==> this.address == old(this.address)   [C19.addr]
+//@   rely l: old(this.client) != nil ==> this.client == old(this.client)   [C19.client]
+//@   rely l: launched[this] >= old(launched[this])   [C19.once]
+//@   immutable config, logger   [C19.once] [C20.guard]
+//@   writers NewClient
+
+//@ type ClientConfig
+//@   immutable Cmd, Reattach, RunnerFunc, SecureConfig, AllowedProtocols, Logger, Stderr, SyncStdout, SyncStderr, AutoMTLS, GRPCBrokerMultiplex, SkipHostEnv, UnixSocketConfig, Managed, StartTimeout, MinPort, MaxPort, GRPCDialOptions, PluginLogBufferSize   [C19.once] [C20.guard]
+//@   writers NewClient
+
+//@ type HandshakeConfig
+//@   immutable ProtocolVersion, MagicCookieKey, MagicCookieValue   [C19.once] [C20.guard]
+//@   writers NewClient
 
 //@ func (*SecureConfig).Check
 //@   nopanic [C13.total]
+//@   nonblocking
 //@   modifies hdata, open_files
 //@   ensures len(s.Checksum) == 0 ==> result0 == false && result1 == ErrSecureConfigNoChecksum   [C13.err]
 //@   ensures len(s.Checksum) != 0 && s.Hash == nil ==> result0 == false && result1 == ErrSecureConfigNoHash   [C13.err]
@@ -25,6 +45,7 @@ package plugin
 
 //@ func (*Client).checkProtoVersion
 //@   nopanic [C01.d]
+//@   nonblocking
 //@   requires c.config != nil
 //@   modifies nothing
 //@   after call strconv.Atoi#1 bind sv: Int := ret0
@@ -36,10 +57,12 @@ package plugin
 //@   ensures result2 == nil ==> result0 == atoi_val(protoVersion) && result1 == c.config.VersionedPlugins[result0]   [C01.ver] [C02.client]
 
 //@ func setGroupWritable
+//@   nonblocking
 //@   nopanic [C01.d] [C16.total]
 //@   modifies nothing
 
 //@ func generateCert
+//@   nonblocking
 //@   trusted
 //@   modifies nothing
 
@@ -57,12 +80,13 @@ package plugin
 //@ func (*Client).Start
 //@   nopanic [C01.d] [C03.d]
 //@   bounded always [C01.e]
-//@   requires valid_client(c) && valid_reattach(c) && inv_client(c)
+//@   requires valid_client(c) && valid_reattach(c)
 //@   requires !held(c.l)
-//@   modifies heap, launches, kills, rf_calls, launched, cancelled, wg_count, hdata, open_files, sc_checks, sel_reached
+//@   modifies $START_EFFECTS
 //@   local sel_reached: Bool := false
 //@   loop#2 invariant forall j :: 0 <= j && j <= rangeindex ==> c.config.AllowedProtocols[j] != c.protocol
-//@   entry a0 := c.address
+//@   after call (*sync.Mutex).Lock#1 bind a0: Iface := c.address
+//@   after call (*sync.Mutex).Lock#1 bind l0: Int := launched[c]
 //@   after select#1 bind line: Str := recv2
 //@   after select#1 bind sel: Int := index
 //@   after select#1 bind lineok: Bool := recvok
@@ -82,8 +106,9 @@ package plugin
 //@   at call (ClientConfig).RunnerFunc#1 assert arg1.Stdin == iface(pkg("os").Stdin)   [C17.stdin]
 //@   ensures !held(c.l)   [C19.lock]
 //@   ensures err != nil || dialable(addr)   [C01.a]
-//@   ensures inv_client(c)   [C19.once]
-//@   ensures a0 != nil ==> addr == a0 && err == nil && launches == old(launches) && rf_calls == old(rf_calls) && c.runner == old(c.runner) && c.client == old(c.client) && c.address == a0   [C19.addr]
+//@   ensures a0 != nil ==> addr == a0 && err == nil && launches == old(launches) && rf_calls == old(rf_calls) && c.address == a0   [C19.addr]
+//@   ensures old(c.client) != nil ==> c.client == old(c.client)   [C19.client]
+//@   ensures old(c.address) != nil ==> addr == old(c.address) && err == nil && launches == old(launches) && rf_calls == old(rf_calls) && c.address == old(c.address) && kills == old(kills)   [C19.addr]
 //@   ensures err == nil ==> c.address == addr && addr != nil   [C19.addr]
 //@   ensures err != nil && a0 == nil && c.config.Reattach == nil ==> c.address == nil   [C19.stable]
 //@   ensures a0 == nil && c.config.Reattach == nil && err == nil ==> sel_reached && sel == 2 && N(line) >= 4   [C01.b-fields]
@@ -106,3 +131,163 @@ package plugin
 //@   ensures a0 == nil && c.config.SecureConfig != nil && c.config.Reattach != nil && nn(c.config.Cmd) + nn(c.config.RunnerFunc) == 0 ==> err == ErrSecureConfigAndReattach   [C14.excl]
 //@   ensures a0 == nil && c.config.GRPCBrokerMultiplex && c.config.Reattach != nil ==> err != nil && launches == old(launches)   [C14.excl]
 //@   ensures a0 == nil && c.config.Reattach == nil && sel_reached && sel == 2 && hs_ok6(c, the_runner, line) && c.config.GRPCBrokerMultiplex && proto_of(line) == "grpc" && (N(line) <= 6 || (pbool_ok(P(line, 6)) && !pbool_val(P(line, 6)))) ==> err == ErrGRPCBrokerMuxNotSupported || wraps(err, ErrGRPCBrokerMuxNotSupported)   [C14.mux]
+
+//@ func NewClient
+//@   nopanic [C19.total] [C17.total]
+//@   requires config != nil && !held(managedClientsLock)
+//@   modifies fields(config), managedClients, elems(managedClients), launched
+//@   at return#1 set launched := launched[result := 0]
+//@   ensures c != nil && fresh(c)   [C19.new]
+//@   ensures valid_client(c)   [C19.new]
+//@   ensures inv_client(c)   [C19.new]
+//@   ensures c.config == config && c.address == nil && c.runner == nil && c.client == nil && !c.exited   [C19.new]
+//@   ensures !held(c.l)
+
+//@ func NewRPCClient
+//@   nopanic [C03.d]
+//@   nonblocking
+//@   requires conn != nil
+//@   modifies yopens
+//@   loop#1 frame fresh_only
+//@   ensures result1 != nil ==> result0 == nil
+//@   ensures result1 == nil ==> result0 != nil && fresh(result0) && result0.plugins == plugins   [C02.plugins]
+
+//@ func (*RPCClient).SyncStreams
+//@   nopanic [C03.d]
+//@   nonblocking
+//@   modifies nothing
+//@   ensures result == nil
+
+//@ func newRPCClient
+//@   nopanic [C03.d]
+//@   nonblocking
+//@   requires c != nil && c.config != nil && c.address != nil && held(c.l)
+//@   modifies conns_open, yopens
+//@   at call NewRPCClient#1 assert arg1 == c.config.Plugins   [C02.plugins]
+//@   at call NewRPCClient#1 assert c.config.TLSConfig != nil ==> tls_cfg(arg0) == c.config.TLSConfig   [C12.wrap]
+//@   at call NewRPCClient#1 assert c.config.TLSConfig == nil ==> tls_cfg(arg0) == nil   [C12.wrap]
+//@   at call (*RPCClient).SyncStreams#1 assert arg0 == c.config.SyncStdout && arg1 == c.config.SyncStderr   [C11.wire-r]
+//@   ensures result1 != nil ==> result0 == nil
+//@   ensures result1 == nil ==> result0 != nil
+
+//@ func newGRPCClient
+//@   nopanic [C03.d]
+//@   nonblocking
+//@   requires c != nil && c.config != nil && c.address != nil && c.logger != nil && held(c.l)
+//@   modifies c.grpcMuxer, fields(c.grpcMuxerOnce), conns_open
+//@   ensures result1 != nil ==> result0 == nil
+//@   ensures result1 == nil ==> result0 != nil
+
+//@ func (*Client).Client
+//@   nopanic [C19.total] [C03.d]
+//@   bounded always [C03.c]
+//@   requires valid_client(c) && valid_reattach(c) && !held(c.l)
+//@   modifies $CLIENT_EFFECTS
+//@   entry a0 := c.address
+//@   entry cl0 := c.client
+//@   ensures !held(c.l)   [C19.lock]
+//@   ensures launches <= old(launches) + 1   [C19.once]
+//@   ensures a0 != nil ==> launches == old(launches) && rf_calls == old(rf_calls) && kills == old(kills)   [C19.kill]
+//@   ensures result1 == nil && cl0 != nil && a0 != nil ==> result0 == cl0   [C19.client]
+//@   ensures result1 == nil ==> result0 != nil && result0 == c.client   [C19.client]
+//@   ensures result1 != nil ==> result0 == nil   [C19.client]
+//@   ensures result1 == nil ==> c.protocol == "netrpc" || c.protocol == "grpc"   [C14.allowed]
+
+//@ func (*Client).Protocol
+//@   nopanic [C19.total]
+//@   requires valid_client(c) && valid_reattach(c) && !held(c.l)
+//@   modifies $START_EFFECTS
+//@   entry a0 := c.address
+//@   ensures a0 != nil ==> launches == old(launches) && rf_calls == old(rf_calls)   [C19.kill]
+//@   ensures launches <= old(launches) + 1   [C19.once]
+
+//@ func (*Client).ReattachConfig
+//@   nopanic [C19.total] [C15.total]
+//@   nonblocking
+//@   requires valid_client(c) && !held(c.l)
+//@   modifies nothing
+//@   after call (*sync.Mutex).Lock#1 bind ra: Iface := c.address
+//@   ensures !held(c.l)   [C19.lock]
+//@   ensures launches == old(launches)   [C19.kill]
+//@   ensures ra == nil ==> result == nil   [C15.rt]
+//@   ensures c.config.Cmd != nil && c.config.Cmd.Process == nil ==> result == nil   [C15.rt]
+//@   ensures ra != nil && c.config.Reattach != nil && (c.config.Cmd == nil || c.config.Cmd.Process != nil) ==> result == c.config.Reattach   [C15.rt]
+//@   ensures ra != nil && c.config.Reattach == nil && (c.config.Cmd == nil || c.config.Cmd.Process != nil) ==> result != nil && fresh(result) && result.Protocol == c.protocol && result.Addr == ra && result.ReattachFunc == nil && !result.Test   [C15.rt]
+//@   ensures ra != nil && c.config.Reattach == nil && c.config.Cmd != nil && c.config.Cmd.Process != nil ==> result.Pid == c.config.Cmd.Process.Pid   [C15.rt]
+
+//@ func (*Client).reattach
+//@   nopanic [C15.total] [C03.d]
+//@   nonblocking
+//@   requires held(c.l) && valid_client(c) && c.config.Reattach != nil && valid_reattach(c) && c.address == nil
+//@   requires c.config.Reattach.ReattachFunc == nil ==> c.config.Reattach.Addr != nil
+//@   modifies c.doneCtx, c.ctxCancel, c.address, c.protocol, c.negotiatedVersion, c.runner, wg_count, conns_open
+//@   after call dynamic#1 bind attached: Iface := ret0
+//@   ensures held(c.l)
+//@   ensures result1 != nil ==> result0 == nil && c.address == nil && c.runner == old(c.runner)   [C15.rt]
+//@   ensures result1 == nil ==> result0 == c.config.Reattach.Addr && c.address == result0   [C15.rt]
+//@   ensures result1 == nil ==> c.protocol == ite(c.config.Reattach.Protocol == "", "netrpc", c.config.Reattach.Protocol)   [C15.rt]
+//@   ensures result1 == nil && !c.config.Reattach.Test ==> c.runner == attached   [C15.kill]
+//@   ensures result1 == nil && c.config.Reattach.Test ==> c.runner == old(c.runner) && c.negotiatedVersion == c.config.Reattach.ProtocolVersion   [C15.kill]
+//@   ensures launches == old(launches) && rf_calls == old(rf_calls) && kills == old(kills)   [C19.kill]
+
+//@ func (*Client).ID
+//@   nopanic [C19.total]
+//@   requires !held(c.l)
+//@   modifies nothing
+//@   ensures !held(c.l)   [C19.lock]
+
+//@ func (*Client).Exited
+//@   nopanic [C19.total]
+//@   requires !held(c.l)
+//@   modifies nothing
+//@   ensures !held(c.l)   [C19.lock]
+
+//@ func (*Client).NegotiatedVersion
+//@   nopanic [C19.total]
+//@   modifies nothing
+
+//@ func (*Client).Kill
+//@   nopanic [C04.idem] [C03.d]
+//@   bounded always [C04.bounded]
+//@   wait call (*sync.WaitGroup).Wait#1 signalled_by logStderr, Start$2, Start$3, Start$4$1, reattach$1: each ends once the process has exited (mode peer-dead after the kill point)
+//@   requires valid_client(c) && valid_reattach(c) && !held(c.l)
+//@   modifies $CLIENT_EFFECTS, removed, waited, grace
+//@   local grace: Bool := false
+//@   at call (*sync.Mutex).Unlock#1 bind r0: Iface := c.runner
+//@   at call (*sync.Mutex).Unlock#1 bind ak: Iface := c.address
+//@   at call (*sync.Mutex).Unlock#1 bind d0: Str := c.unixSocketCfg.socketDir
+//@   after select#1 set grace := index == 0
+//@   ensures !held(c.l)   [C19.lock]
+//@   ensures launches == old(launches) && rf_calls == old(rf_calls)   [C19.kill]
+//@   ensures r0 == nil || runner_id(r0) == "" ==> kills == old(kills) && removed == old(removed) && waited == old(waited) && launches == old(launches)   [C04.noop]
+//@   ensures r0 != nil && runner_id(r0) != "" ==> waited[c.clientWaitGroup] && (d0 != "" ==> removed[d0])   [C04.end]
+//@   ensures r0 != nil && runner_id(r0) != "" ==> grace || kills[r0] >= old(kills)[r0] + 1   [C04.end]
+//@   ensures grace ==> kills[r0] == old(kills)[r0]   [C04.grace]
+//@   ensures r0 != nil && runner_id(r0) != "" && ak == nil ==> kills[r0] >= old(kills)[r0] + 1   [C04.force] [C05.c]
+
+//@ ghost cc_spawned: Int
+
+//@ type $globals
+//@   guarded_by managedClientsLock: managedClients   [C20.guard]
+
+//@ func CleanupClients
+//@   nopanic [C04.cleanup]
+//@   requires !held(managedClientsLock)
+//@   modifies Killed, wg_count, waited, cc_spawned, heap
+//@   local cc_n: Int := 0
+//@   after call (*sync.Mutex).Lock#1 set cc_n := len(managedClients)
+//@   after call (*sync.Mutex).Lock#1 set cc_spawned := 0
+//@   at go#1 assert arg0 == managedClients[cc_spawned]   [C04.cleanup]
+//@   at go#1 set cc_spawned := cc_spawned + 1
+//@   at call (*sync.Mutex).Lock#1 assert Killed == 1   [C04.cleanup]
+//@   at call (*sync.WaitGroup).Wait#1 assert !held(managedClientsLock) && cc_spawned == cc_n   [C04.cleanup]
+//@   loop#1 invariant cc_spawned == rangeindex + 1 && cc_spawned <= cc_n && held(managedClientsLock) && cc_n == len(managedClients)
+//@   ensures !held(managedClientsLock)   [C04.cleanup]
+//@   ensures Killed == 1   [C04.cleanup]
+
+//@ func CleanupClients$1
+//@   nopanic [C04.cleanup]
+//@   requires client != nil && valid_client(client) && valid_reattach(client) && !held(client.l)   [nospawn]
+//@   local cc_killed: Bool := false
+//@   after call (*Client).Kill#1 set cc_killed := true
+//@   at call (*sync.WaitGroup).Done#1 assert cc_killed   [C04.cleanup]
